@@ -187,3 +187,50 @@ REG.add(Contract(F_EB, 'EAM_Potential_Builder._init_eampotentials',
     invariants={0: _init_inv}, ghost={'potlist': T.Obj('EAMPotential')}, instantiate_int_foralls=True,
     raises_when=lambda v, old, exc: [z3.BoolVal(exc.cls in ('ConfigurationException', 'UnknownModifierException', 'UnknownPotentialFormException'))], on_raise=lambda v, old: [],
     carries=['post', 'preserve/0', 'raises'], props=['C03', 'C12']))
+
+# ---------------------------------------------------------------- Finnis-Sinclair variant: species of A->B rows, zero filling of the A->B table
+fs_species_seq = SpecSeq('fs_species_seq', [DTL], lambda rows, k: z3.Concat(z3.Unit(frm(rows[k])), z3.Unit(to(rows[k]))), result=z3.SeqSort(StrS), elem_len=2)
+REG.classes['EAM_Potential_Builder_FS'].bases = ()     # (verified on its own class; methods it inherits are looked up through the Python class)
+REG.add(Contract(F_EB, 'EAM_Potential_Builder_FS._density_species', params=[('self', T.Obj('EAM_Potential_Builder_FS')), ('density', T.List(T.Obj('EAMFSDensityTuple')))], result=StrSet,
+    ensures=lambda v, old, res: [z3.ForAll([z3.String('x!fd')], z3.Select(res.has, z3.String('x!fd')) == z3.Contains(fs_species_seq(v.density, z3.Length(v.density)), z3.Unit(z3.String('x!fd'))))],
+    post_names=['every-species-named-on-either-side-of-an-A->B-row'],
+    invariants={0: lambda v, old: [v.species_list == fs_species_seq(v.density, v._i0)]}, ghost={'species_list': T.Str},
+    carries=['post', 'preserve/0'], props=['C04']))
+
+REG.add_class(ClassDecl('<ext>', 'EAMFSConfigView', {'eam_density_fs': T.List(T.Obj('EAMFSDensityTuple')), 'eam_embed': T.List(T.Obj('EAMTuple'))}, external=True))
+cvfs_density = field('EAMFSConfigView', 'eam_density_fs', DTL)
+def fs_all_species(embed_has, rows):
+    return lambda x_: z3.Or(z3.Select(embed_has, x_), z3.Contains(fs_species_seq(rows, z3.Length(rows)), z3.Unit(x_)))
+def _fsnd_state(d, old_d, member):
+    """after zero filling: every pair (a, b) of species of the model has a density; declared ones are untouched, the others are zero"""
+    a, b = z3.Strings('a!fz b!fz')
+    return [z3.ForAll([a, b], has2(d, a, b) == z3.Or(has2(old_d, a, b), z3.And(member(a), member(b)))),
+            z3.ForAll([a, b], z3.Implies(has2(old_d, a, b), get2(d, a, b) == get2(old_d, a, b))),
+            z3.ForAll([a, b], z3.Implies(z3.And(member(a), member(b), z3.Not(has2(old_d, a, b))), get2(d, a, b) == ZERO_FN))]
+
+def _fsnd_outer(v, old):
+    L = keys_list_fn_str(v.all_species.has); j = z3.Int('j!fo'); i = v._i0
+    allm = lambda x_: z3.Select(v.all_species.has, x_)
+    a, b = z3.Strings('a!fo b!fo')
+    done = lambda a_: z3.Exists([j], z3.And(0 <= j, j < i, L[j] == a_))
+    return [z3.ForAll([a, b], has2(v.density_dict, a, b) == z3.Or(has2(old.density_dict, a, b), z3.And(done(a), allm(b)))),
+            z3.ForAll([a, b], z3.Implies(has2(old.density_dict, a, b), get2(v.density_dict, a, b) == get2(old.density_dict, a, b))),
+            z3.ForAll([a, b], z3.Implies(z3.And(done(a), allm(b), z3.Not(has2(old.density_dict, a, b))), get2(v.density_dict, a, b) == ZERO_FN)),
+            z3.ForAll([a], allm(a) == fs_all_species(v.embed_dict.has, cvfs_density(v.cp))(a))]
+def _fsnd_inner(v, old):
+    L = keys_list_fn_str(v.all_species.has); j = z3.Int('j!fi'); i, k = v._i0, v._i1
+    allm = lambda x_: z3.Select(v.all_species.has, x_)
+    a, b = z3.Strings('a!fi b!fi')
+    done = lambda a_: z3.Exists([j], z3.And(0 <= j, j < i, L[j] == a_))
+    cur = lambda a_, b_: z3.And(a_ == L[i], z3.Exists([j], z3.And(0 <= j, j < k, L[j] == b_)))
+    return [v.s == L[i], 0 <= i, i < z3.Length(L), z3.Select(v.density_dict.has, L[i]),
+            z3.ForAll([a, b], has2(v.density_dict, a, b) == z3.Or(has2(old.density_dict, a, b), z3.And(done(a), allm(b)), cur(a, b))),
+            z3.ForAll([a, b], z3.Implies(has2(old.density_dict, a, b), get2(v.density_dict, a, b) == get2(old.density_dict, a, b))),
+            z3.ForAll([a, b], z3.Implies(z3.And(z3.Or(z3.And(done(a), allm(b)), cur(a, b)), z3.Not(has2(old.density_dict, a, b))), get2(v.density_dict, a, b) == ZERO_FN)),
+            z3.ForAll([a], allm(a) == fs_all_species(v.embed_dict.has, cvfs_density(v.cp))(a))]
+REG.add(Contract(F_EB, 'EAM_Potential_Builder_FS._add_null_density_functions',
+    params=[('self', T.Obj('EAM_Potential_Builder_FS')), ('cp', T.Obj('EAMFSConfigView')), ('embed_dict', FnDict), ('density_dict', Outer)], modifies=['density_dict'],
+    ensures=lambda v, old, res: _fsnd_state(v.density_dict, old.density_dict, fs_all_species(v.embed_dict.has, cvfs_density(v.cp))),
+    post_names=['every-pair-of-species-of-the-model-has-a-density', 'declared-densities-untouched', 'zero-density-for-the-undeclared-pairs'],
+    invariants={0: _fsnd_outer, 1: _fsnd_inner}, abstract_globals={'zero': ConstFactory(FnV(ZERO_FN))}, instantiate_int_foralls=True,
+    carries=['post', 'preserve/0', 'preserve/1'], props=['C04']))
